@@ -117,6 +117,9 @@ G_set_ext(g, s) ==
   IF NodesConflict(g, s) \/ SelfConflict(s) THEN Raise(g)
   ELSE Ok([GAddMissing(g, s) EXCEPT !.ext = s])
 G_copy(g) == g
+\* FactorGraph.from_graph(g): nodes, edges and external nodes of g; label tables re-derived from them; no interpretation
+G_from_graph(g) == [k |-> "fgraph", nodes |-> g.nodes, edges |-> g.edges, ext |-> g.ext,
+                    nls |-> { n.l : n \in g.nodes }, els |-> { e.lab : e \in g.edges }, doms |-> {}, facs |-> {}]
 
 \* ------------------------------------------------------- heap of handles
 \* graph handles g1, g2 ; call records [op, h, ...]; "copy" assigns the OTHER graph handle
@@ -189,6 +192,7 @@ HeapApply(st, c) ==
   ELSE IF c.op = "remove_edge" THEN SetH(st, c, G_remove_edge(st[c.h], c.e))
   ELSE IF c.op = "set_ext"     THEN SetH(st, c, G_set_ext(st[c.h], c.x))
   ELSE IF c.op = "copy" /\ c.h \in {"g1", "g2"} THEN [out |-> "ok", s |-> [st EXCEPT ![OtherG(c.h)] = G_copy(st[c.h])]]
+  ELSE IF c.op = "from_graph"  THEN [out |-> "ok", s |-> [st EXCEPT ![OtherG(c.h)] = G_from_graph(st[c.h])]]
   ELSE IF c.op = "copy"        THEN
          \* HRG.copy re-creates every HRGRule, whose constructor re-checks lhs type = rhs type
          IF \E i \in DOMAIN st[c.h].rules : st[c.h].rules[i].lhs.type # GraphType(RhsOf(st, st[c.h].rules[i]))
